@@ -1,11 +1,14 @@
 (* Boolean comparators and runners used by the generated case files of the
    correspondence check.  Everything here is executed with vm_compute. *)
 From Coq Require Import ZArith List String Bool PrimFloat.
-From Hexital Require Import Base.Prelude Base.Num Base.PyFloat Model.Manager Model.Candle Inst.FloatInst.
+From Hexital Require Import Base.Prelude Base.Num Base.PyFloat Model.Manager Model.Candle Model.Readings
+  Model.Analysis Model.Engine Inst.FloatInst.
 Import ListNotations.
 Local Open Scope Z_scope.
 
-Notation F := (FOps []).
+Section WithTable.
+Variable tbl : list (float * Z * float).     (* the libm pow oracle *)
+Notation F := (FOps tbl).
 
 Definition mk_ohlcv (o h l c v : pynum) : ohlcv F :=
   Build_ohlcv F o h l c v.
@@ -69,3 +72,102 @@ Definition check_mgr (c : mgr_case) : bool :=
     list_eqb state_matches tr exp_states &&
     opt_eqb Z.eqb (option_map exn_code e) exp_err
   end.
+
+(* ---------------- analysis functions ---------------- *)
+
+(* values compare by type tag and bits; dicts compare as finite maps (key order ignored) *)
+Fixpoint val_eqb (a b : val F) : bool :=
+  match a, b with
+  | VNone, VNone => true
+  | VBool x, VBool y => Bool.eqb x y
+  | VNum x, VNum y => pynum_eqb x y
+  | VDict d1, VDict d2 =>
+    Nat.eqb (List.length d1) (List.length d2) &&
+    (fix go (l1 : list (string * val F)) : bool :=
+       match l1 with
+       | [] => true
+       | (k1, v1) :: r1 =>
+         match alist_get k1 d2 with Some v2 => val_eqb v1 v2 | None => false end && go r1
+       end) d1
+  | _, _ => false
+  end.
+
+Definition alist_eqb (a b : list (string * val F)) : bool := val_eqb (VDict a) (VDict b).
+
+(* candle with readings already on it *)
+Definition mkcr (ts : Z) (o h l c v : pynum) (inds subs : list (string * val F)) : cd (payload F) :=
+  {| t := ts; p := Build_payload F (mk_ohlcv o h l c v) None false inds subs |}.
+
+(* expected outcome: a value or an exception code *)
+Definition res_matches (r : res (val F)) (e : val F + Z) : bool :=
+  match r, e with
+  | Ok v, inl v' => val_eqb v v'
+  | Err x, inr code => exn_code x =? code
+  | _, _ => false
+  end.
+
+(* one candle list, many (function, index, expected) probes *)
+Definition afun_case : Type := list (cd (payload F)) * list (afun * option Z * (val F + Z)).
+Definition check_afun (c : afun_case) : bool :=
+  let '(cs, probes) := c in
+  forallb (fun pr => let '(f, idx, e) := pr in res_matches (run_afun F f cs idx) e) probes.
+
+
+(* ---------------- indicators: engine + manager ---------------- *)
+Inductive iop :=
+| IAppend (l : list (cd (payload F)))
+| ICalculate | IPurge | IRecalculate
+| ICalcIndex (s : Z) (e : option Z).
+
+Definition ind_step (cfg : mcfg) (I : ind F) (st : store F) (op : iop) : res (store F) :=
+  match op with
+  | IAppend l => st1 <- mgr_append F cfg st l ;; calculate F I st1
+  | ICalculate => calculate F I st
+  | IPurge => Ok (purge F I st)
+  | IRecalculate => calculate F I (purge F I st)
+  | ICalcIndex s e => calculate_index F I s e st
+  end.
+
+Fixpoint ind_trace (cfg : mcfg) (I : ind F) (st : store F) (ops : list iop) : list (store F) * option exn :=
+  match ops with
+  | [] => ([st], None)
+  | op :: ops' =>
+    match ind_step cfg I st op with
+    | Ok st' => let '(tr, e) := ind_trace cfg I st' ops' in (st :: tr, e)
+    | Err e => ([st], Some e)
+    end
+  end.
+
+(* observed candle: timestamp and both reading dictionaries *)
+Definition exp_rd : Type := Z * list (string * val F) * list (string * val F).
+Definition rd_matches (c : cd (payload F)) (e : exp_rd) : bool :=
+  let '(ts, i, s) := e in
+  (t c =? ts) && alist_eqb (inds F (p c)) i && alist_eqb (subs F (p c)) s.
+Definition store_matches (st : store F) (e : option (list exp_rd)) : bool :=
+  match e with None => true | Some l => list_eqb rd_matches st l end.
+
+Definition ind_case : Type :=
+  mcfg * kind F * string * Z * list (cd (payload F)) * list iop * list (option (list exp_rd)) * option Z.
+
+Definition check_ind (c : ind_case) : bool :=
+  let '(cfg, k, name, rnd, init, ops, exp_states, exp_err) := c in
+  match tasks F cfg init with
+  | Err e => match exp_states, exp_err with [], Some code => exn_code e =? code | _, _ => false end
+  | Ok st0 =>
+    let '(tr, e) := ind_trace cfg (top F k name rnd) st0 ops in
+    list_eqb store_matches tr exp_states && opt_eqb Z.eqb (option_map exn_code e) exp_err
+  end.
+
+End WithTable.
+
+Arguments mk_ohlcv {tbl}.
+Arguments mkc {tbl}.
+Arguments mkcr {tbl}.
+Arguments MAppend {tbl}.
+Arguments MCollapse {tbl}.
+Arguments MTasks {tbl}.
+Arguments IAppend {tbl}.
+Arguments ICalculate {tbl}.
+Arguments IPurge {tbl}.
+Arguments IRecalculate {tbl}.
+Arguments ICalcIndex {tbl}.
